@@ -1,4 +1,5 @@
 (* Props/C06.v — property C06: never more scenarios in flight than the concurrency limit. *)
+From CV Require Proofs.SchedP12.
 From CV Require Import Model.Base Model.Events Model.Sched Proofs.BaseP Proofs.SchedP Proofs.SchedP2.
 
 (* for every limit k, every label list (= every input, every completion order, any length): at most k attempts
@@ -34,3 +35,22 @@ Example C06_nonvacuous :
   | None => (0%nat, 0%nat)
   end = (2%nat, 2%nat).
 Proof. vm_compute. reflexivity. Qed.
+
+(* "FILLS THE FREE SLOTS", as a postcondition of every loop turn (any pc, also the turn that has just drained the
+   completion notices): if the turn handed out no serial entry, then afterwards either the flow is broken, or no slot
+   is free, or every concurrent entry still queued is waiting for its retry delay — a ready entry is never left behind
+   next to a free slot. (When nothing is running a ready serial entry is preferred and runs alone: C07.) *)
+Theorem C06_loop_turn_fills_the_free_slots :
+  forall c s s' o, typed_ok s -> step c s LTop = Some (s', o) ->
+    (forall e, In (e, Dispatched) (running s') -> e_serial e = false) ->
+    flow s' = Break \/ flow s' = Cont (Some 0%nat) \/ Forall (SchedP12.waiting (now s)) (qC s').
+Proof. exact SchedP12.step_top_fills. Qed.
+Print Assumptions C06_loop_turn_fills_the_free_slots.
+
+(* what one hand-out takes: exactly the first n ready entries, in order *)
+Theorem C06_take_ready_exact :
+  forall l n now md a b m, take_ready n now md l = (a, b, m) ->
+    a = SchedP12.take_opt n (filter (SchedP12.ready now) l) /\
+    ((exists k, n = Some k /\ length a = k) \/ Forall (SchedP12.waiting now) b) /\
+    Permutation.Permutation l (a ++ b).
+Proof. exact SchedP12.take_ready_post. Qed.
